@@ -364,7 +364,7 @@ pub struct BfsStats {
 }
 
 fn cap(tier: Tier) -> u64 {
-    tier.pick(1500, 40000)
+    tier.pick(3000, 60000)
 }
 
 fn bfs(variant: &str, cap: u64, walk_seed: u64, n_walks: u64, walk_len: u64, w: &WCtx) -> Result<(BfsStats, Vec<u64>), (Failure, C08Case)> {
@@ -590,7 +590,7 @@ impl Prop for C08 {
         "C08"
     }
     fn rule(&self) -> String {
-        "bounded-exhaustive breadth-first enumeration of ON-DISK IMAGES: 8-bucket table, alphabet of 4 keys that all hash to one bucket with lengths 10, 11, 19, 26 (tight for their key slots), value sizes {0, 14, 15, 1100}; 20 transitions per image (16 put(k,size), 4 delete(k)); start images: empty, and seeded images built from filler entries in other buckets so that the end of the value file, of the key file, or of both lies within 48 bytes below / at or above 16 KiB (thorough: also 2 MiB), with freed slots of the alphabet's classes lying below the boundary. Image identity = digest of the three files; each transition = restore the image, open, one call, close. When the cap cuts the breadth-first search, 150 (thorough: 1500) seeded random walks of 30 calls from the start image go beyond the frontier with the same oracle. Oracle at every transition: the call's result vs the model, get of all alphabet keys and of (a sample of) the filler entries, len, then independent decode: structure, tiling, contents == model; two call paths to one image must carry one model. evaluations = transitions executed; states = distinct images (cap per start image: quick 1500, thorough 40000; evidence says per start image whether the graph was closed under the cap). Non-trivial: a transition in which a surviving key record changed its offset or one of its offset fields changed its encoded width (distinct by image digest x transition)."
+        "bounded-exhaustive breadth-first enumeration of ON-DISK IMAGES: 8-bucket table, alphabet of 4 keys that all hash to one bucket with lengths 10, 11, 19, 26 (tight for their key slots), value sizes {0, 14, 15, 1100}; 20 transitions per image (16 put(k,size), 4 delete(k)); start images: empty, and seeded images built from filler entries in other buckets so that the end of the value file, of the key file, or of both lies within 48 bytes below / at or above 16 KiB (thorough: also 2 MiB), with freed slots of the alphabet's classes lying below the boundary. Image identity = digest of the three files; each transition = restore the image, open, one call, close. When the cap cuts the breadth-first search, 150 (thorough: 1500) seeded random walks of 30 calls from the start image go beyond the frontier with the same oracle. Oracle at every transition: the call's result vs the model, get of all alphabet keys and of (a sample of) the filler entries, len, then independent decode: structure, tiling, contents == model; two call paths to one image must carry one model. evaluations = transitions executed; states = distinct images (cap per start image: quick 3000, thorough 60000; evidence says per start image whether the graph was closed under the cap). Non-trivial: a transition in which a surviving key record changed its offset or one of its offset fields changed its encoded width (distinct by image digest x transition)."
             .to_string()
     }
     fn assumptions(&self) -> Vec<String> {
